@@ -113,13 +113,20 @@ def run(ctx, report):
                         'the acknowledgement was cut short: %s' % info['swallowed'][0], inp)
             return
         a = ackparse.Ack(ack)
+        # the situation of the source, for the failure key: an EMPTY group control number in the source (echoed by the 997)
+        src_d = (text[105], text[3]) if len(text) > 105 else ('~', '*')
+        sit = ''
+        for sg_ in text.split(src_d[0]):
+            pp = sg_.lstrip('\r\n ').split(src_d[1])
+            if pp[0] == 'GS' and (len(pp) < 7 or pp[6] == ''):
+                sit = ':source-gs06-empty'
         for p in a.problems:
-            report.fail('C06:structure:%s' % p.split(':')[0].split(' but')[0][:40], 'acknowledgement structure: %s' % p, inp)
+            report.fail('C06:structure:%s%s' % (p.split(':')[0].split(' but')[0][:40], sit), 'acknowledgement structure: %s' % p, inp)
         errs, exn = reread(ack)
         if exn:
-            report.fail('C06:reread-raises:%s' % exn, 'reading the acknowledgement raised %s' % exn, inp)
+            report.fail('C06:reread-raises:%s%s' % (exn, sit), 'reading the acknowledgement raised %s' % exn, inp)
         for e in errs[:3]:
-            report.fail('C06:reread-envelope-error:%s:%s' % (e[0], e[1]), 'reading the acknowledgement reports %s error %s (%s)' % (e[0], e[1], e[2]), inp)
+            report.fail('C06:reread-envelope-error:%s:%s%s' % (e[0], e[1], sit), 'reading the acknowledgement reports %s error %s (%s)' % (e[0], e[1], e[2]), inp)
         if not a.problems and not exn and not errs:
             v = revalidate(ack)
             report.count('ack:revalidated:' + v.split(':')[0])
@@ -150,6 +157,18 @@ def run(ctx, report):
             continue
         i = rng.choice(victims)
         cases.append(('envmut', 'earlier %s deleted map=%s' % (ids[i], name), docgen.encode(segs[:i] + segs[i + 1:], d, '')))
+    # a source group whose control number is EMPTY (both in GS06 and GE02): the 997 echoes it as its own
+    for name in ['837.4010.X098.A1.xml', '835.4010.X091.A1.xml']:
+        segs, d = walk_gen.map_document(rng, name, ('~', '*', ':'), n_gs=1, n_st=1, p_seg=0.1, p_loop=0.15, max_segs=20)
+        out = []
+        for x in segs:
+            p_ = x.split(d[1])
+            if p_[0] == 'GS':
+                p_[6] = ''
+            elif p_[0] == 'GE':
+                p_ = p_[:2] + ['']
+            out.append(d[1].join(p_))
+        cases.append(('envmut', 'empty group control number map=%s' % name, docgen.encode(out, d, '')))
     pipecorr.run(report, ctx, rng, cases, 2, oracle, force=lambda m: m[0] == 'A')
     logging.disable(logging.NOTSET)
 
